@@ -42,12 +42,44 @@ def families(tier):
   return fams
 
 
+def abort_sweep(chk):
+  """a single abort arriving at any scheduling point of whole runs (between
+  bodies, inside the executor's own steps): the schedule sweep of the C04 check,
+  judged here on the teardown clauses only"""
+  import sys
+  from checks import c04
+  sys.argv = sys.argv[:1]
+  from vf import build, explore  # noqa: F401
+  quick = chk.tier == 'quick'
+  jobs = []
+  for prog_name, source in (('group', 'thread'), ('group', 'sigint'), ('start', 'thread')):
+    roots = explore.split_roots(c04.make_run(prog_name, source, 1), 1, 6)
+    cap = 4000 if quick else 40000
+    per = max(50, cap // max(1, len(roots)))
+    for r in roots:
+      jobs.append((prog_name, source, 1, 1, r, per))
+  seeds = [chk.seed * 7919 + i for i in range(150 if quick else 2000)]
+  rjobs = [('group', 'thread', 1, seeds[k::6]) for k in range(6)]
+  with mp.Pool(14, maxtasksperchild=8) as pool:
+    outs = pool.map(c04.explore_job, jobs, chunksize=1) + pool.map(c04.random_job, rjobs, chunksize=1)
+  n = 0
+  for o in outs:
+    n += o['n']
+    for sig, det in o['bad']:
+      if 'teardown phase of an entered group' in sig or 'plug tearDown did not run' in sig:
+        chk.violation(sig, det)
+  chk.traces += n
+  chk.nontrivial += n
+  chk.tlc_runs.append(dict(name='abort sweep (single abort at every scheduling point)', schedules=n))
+  chk.log('%d schedules with a single abort judged on the teardown clauses' % n)
+
+
 def main(chk):
   execlib.run_families(chk, families(chk.tier), OWNED)
+  abort_sweep(chk)
   chk.cov['rule'] = ('group nestings x behaviours incl. timeout and abort-during-body; non-trivial = at '
                      'least two invocations or one record')
-  chk.assumptions += ['an abort between two bodies (not during one) is explored by the C04 schedule sweep, '
-                      'whose traces are also judged against TeardownOnce']
+  chk.assumptions += ['the abort sweep places the abort at synchronisation operations, flag reads and body points']
   return chk.finish(explanation='TeardownOnce/NotEnteredNoRun checked by TLC on Executor.tla; every emitted '
                     'scenario replayed (scheduler + virtual time for abort/timeout) and the teardown rules '
                     'evaluated on the real call log', exhaustive=True)
